@@ -105,6 +105,7 @@ pub fn one_case(kind: &str, si: &gen::SchemaInfo, input: &J, out: &mut Out) {
         "trace" => trace_case(si, input.as_str().unwrap(), out),
         "svisit" => svisit_case(&si.name, &si.text, out),
         "collect" => crate::collectcases::collect_case(si, input.as_str().unwrap(), out),
+        "introspect" => { let mut rng = Rng::new(crate::env_seed()); crate::introspect::schema_cases(si, &mut rng, false, out); }
         "transform" => {
             for h in crate::transform::HOOKS.iter() { id(&format!("R_{}", h)); }
             let mut rng = Rng::new(crate::env_seed());
@@ -377,6 +378,24 @@ pub fn generate(kind: &str, thorough: bool, seed: u64, corpus: &str, out: &mut O
                     let h = crate::transform::random_hooks(&mut rng);
                     crate::transform::transform_case(&t, &h, out);
                 }
+            }
+        }
+        "introspect" => {
+            let mut sis = pool();
+            for i in 0..(4 * scale) { sis.push(gen::SchemaInfo::new(&format!("random{}", i), &gen::random_schema(&mut rng))); }
+            for si in &sis { crate::introspect::schema_cases(si, &mut rng, thorough, out); }
+            // the bundled real-world results
+            let dir = "/repo/src/introspection/test_files";
+            let mut files: Vec<_> = std::fs::read_dir(dir).map(|rd| rd.filter_map(|e| e.ok()).map(|e| e.path()).collect()).unwrap_or_default();
+            files.sort();
+            for f in files {
+                if let Ok(t) = std::fs::read_to_string(&f) {
+                    if !thorough && t.len() > 1_000_000 { continue; }
+                    crate::introspect::introspect_case(&format!("bundled:{}", f.file_name().unwrap().to_string_lossy()), &t, 30, &mut rng, out);
+                }
+            }
+            for (k, t) in ["", "null", "[]", "{}", "{\"__schema\": null}", "{\"__schema\": {}}", "{\"__schema\": {\"queryType\": {\"name\": \"Q\"}, \"types\": [], \"directives\": []}}", "\"x\"", "{\"__schema\": "].iter().enumerate() {
+                crate::introspect::introspect_case(&format!("tiny{}", k), t, 50, &mut rng, out);
             }
         }
         _ => panic!("unknown kind {}", kind),
